@@ -10,6 +10,7 @@ CONSTANTS
     BugDrainWrong = FALSE
     BugLowWaterStrict = TRUE
     BugNoRereg = FALSE
+    BugCloseLeaves = FALSE
 SPECIFICATION FairSpec
 PROPERTIES Resume
 CHECK_DEADLOCK FALSE
